@@ -342,7 +342,7 @@ impl<const W: u8> std::hash::Hash for Zt<W> {
 }
 
 /// element abstraction shared by the bumpalo world (W = 0) and the std mirror (W = 1)
-pub trait Elem: Sized + Clone + PartialEq + std::fmt::Debug + std::hash::Hash + 'static {
+pub trait Elem: Sized + Clone + PartialEq + std::fmt::Debug + std::hash::Hash + serde::Serialize + 'static {
     const WORLD: u8;
     const TRACKED: bool;
     const ZST: bool = false;
@@ -351,6 +351,21 @@ pub trait Elem: Sized + Clone + PartialEq + std::fmt::Debug + std::hash::Hash + 
     fn etag(&self) -> u32;
     fn intact(&self) -> bool {
         true
+    }
+}
+impl<const W: u8> serde::Serialize for Tr<W> {
+    fn serialize<S: serde::Serializer>(&self, s: S) -> Result<S::Ok, S::Error> {
+        s.serialize_u32(self.tag)
+    }
+}
+impl<const W: u8> serde::Serialize for Big<W> {
+    fn serialize<S: serde::Serializer>(&self, s: S) -> Result<S::Ok, S::Error> {
+        s.serialize_u32(self.etag())
+    }
+}
+impl<const W: u8> serde::Serialize for Zt<W> {
+    fn serialize<S: serde::Serializer>(&self, s: S) -> Result<S::Ok, S::Error> {
+        s.serialize_unit()
     }
 }
 impl<const W: u8> Elem for Tr<W> {
